@@ -1,7 +1,7 @@
 """C06 -- deletion: extras untouched without --delete, exact mirror with it.
 Theorems: coq/Properties/C06.v.  Tie: worlds through the real binary vs Engine.run (incl. the deletion plan
 against the filtered list, as coded), plan_deletions on the Bloom path (>10 000 source entries)."""
-import json, os, time
+import json, os, shutil, time
 import vlib, world, engine_world as ew
 import c01
 from common import proof_phase, TRUSTED_COMMON
@@ -84,6 +84,31 @@ def bloom_case(sc, r):
     return {"rc": rr["rc"], "left": left, "missing": missing, "n": n, "extras": len(extras)}
 
 
+def ignore_file_worlds(sc, tier):
+    """(round 4) a .ignore file in the source hides entries from the source scan; their copies in the destination have their counterparts:
+    --delete must not remove them (nor what is below a hidden directory), while entries with no counterpart go"""
+    viol = []
+    for wi in range(2 if tier == "quick" else 8):
+        base = os.path.join(sc.dir, "ign%d" % wi)
+        src, dst = base + "/src", base + "/dst"
+        os.makedirs(src + "/build/obj"); os.makedirs(dst + "/build/obj"); os.makedirs(dst + "/old")
+        open(src + "/.ignore", "w").write("*.log\nbuild/\n")
+        keepers = ["trace.log", "build/out.bin", "build/obj/x.o"]
+        for rel in ["a.txt"] + keepers:
+            open(os.path.join(src, rel), "w").write("source " + rel)
+        for rel in keepers + ["stale.txt", "old/gone.txt"]:
+            open(os.path.join(dst, rel), "w").write("destination " + rel)
+        if wi % 2 == 1:
+            shutil.copy(src + "/.ignore", dst + "/.ignore")          # later runs: the destination has the rule file too
+        rr = world.run_sy([src, dst, "--delete", "--force-delete", "-q", "-j%d" % (1 if wi % 4 < 2 else 4)], sc)
+        lost = [rel for rel in keepers if not os.path.exists(os.path.join(dst, rel))]
+        left = [rel for rel in ("stale.txt", "old/gone.txt", "old") if os.path.exists(os.path.join(dst, rel))]
+        if rr["rc"] != 0 or lost or left:
+            viol.append({"world": "ignore-file-%d" % wi, "failure": {"why": "--delete with a .ignore file in the source (*.log, build/): exit %s; destination entries whose counterparts exist in the source were deleted: %r; stale entries left: %r" % (rr["rc"], lost, left), "klass": None}})
+        shutil.rmtree(base, ignore_errors=True)
+    return viol
+
+
 def run(tier, seed):
     res = vlib.Result(PID, tier, seed)
     pr = proof_phase(res, PID)
@@ -97,9 +122,23 @@ def run(tier, seed):
     n = 80 if tier == "quick" else 900
     cases, obs_l, raws, metas = [], [], [], []
     bloom = None
+    case_variant_worlds = 0
     with vlib.Scratch() as sc:
         for i in range(n):
             sspec, dspec = ew.gen_world(r, with_big=(i % 4 == 0))
+            if i % 5 == 1:
+                # (seed C06-4) extras whose names differ from a live source path only in letter case -- on a case-sensitive file
+                # system they are other entries: stale ones
+                have = {e["p"] for e in sspec} | {e["p"] for e in dspec}
+                for e in [x for x in sspec if x["p"].swapcase() != x["p"]][:3]:
+                    alt = e["p"].swapcase() if "/" not in e["p"] else e["p"].rsplit("/", 1)[0] + "/" + e["p"].rsplit("/", 1)[1].swapcase()
+                    if alt not in have and not any(h.startswith(alt + "/") or alt.startswith(h + "/") and False for h in have):
+                        have.add(alt)
+                        if e["k"] == "d":
+                            dspec.append({"p": alt, "k": "d"}); dspec.append({"p": alt + "/inside.txt", "k": "f", "data": b"stale", "mt_ns": 10**9})
+                        else:
+                            dspec.append({"p": alt, "k": "f", "data": b"case variant", "mt_ns": 10**9})
+                case_variant_worlds += 1
             fl = ew.gen_flags(r, jobs=True)
             if i % 3 != 2:
                 fl["delete"] = 1
@@ -129,10 +168,8 @@ def run(tier, seed):
             kv = dict(x.split("=", 1) for x in obs.split(" "))
             raw["nerr"] = int(kv["nerr"]); raw["refused"] = kv["refused"] == "1"
             cases.append(case); obs_l.append(obs); raws.append(raw); metas.append((i, fl, rules))
-        if tier == "quick":
-            bloom = bloom_case(sc, r)
-        else:
-            bloom = bloom_case(sc, r)
+        bloom = bloom_case(sc, r)
+        ign_viol = ignore_file_worlds(sc, tier)
     model = [ew.model_obs(m) for m in vlib.run_model(cases)]
     diffs, viol, hits, nontriv = [], [], {}, set()
     for case, o, m, raw, (i, fl, rules) in zip(cases, obs_l, model, raws, metas):
@@ -146,6 +183,7 @@ def run(tier, seed):
                 viol.append({"world": i, "flags": fl, "rules": rules, "failure": f, "case": case, "impl": o, "model": m})
         if "delete:" in o:
             nontriv.add(o)
+    viol += ign_viol
     if bloom and (bloom["left"] or bloom["missing"] or bloom["rc"] != 0):
         viol.append({"world": "bloom", "failure": {"why": "Bloom-filter path (10 050 source entries, 450 stale): %d stale entries survived, %d source entries missing, rc=%s" % (len(bloom["left"]), len(bloom["missing"]), bloom["rc"]), "left": bloom["left"][:5]}})
     res.cov["evaluations"] = len(cases) + 1
@@ -153,6 +191,7 @@ def run(tier, seed):
     res.cov["model_impl_disagreements"] = len(diffs)
     res.cov["known_finding_hits"] = {k: len(v) for k, v in hits.items()}
     res.cov["bloom_path"] = bloom
+    res.cov["worlds_with_case_variant_extras"] = case_variant_worlds
     res.cov["rule"] = ("worlds as for C01 with extras (files, nested stale directories, names that look like working files), 2/3 with --delete (threshold 50/100, half --force-delete), "
                        "every 5th with an --exclude pattern; one world with 10 050 source entries for the Bloom-filter path; non-trivial = at least one deletion performed")
     res.cov["samples"] = [c[:300] for c in cases[:2]] + [obs_l[0][:300]]
